@@ -644,3 +644,24 @@ Definition init_chain (s0 : state) (gvals : list (bytes * bytes * Z)) (dao_token
     | None => Some (s2, ups)
     end
   end.
+
+(* ---------- histories ---------- *)
+Inductive op :=
+| OBegin (h t : Z) (prop : bytes) (votes : list vote) (evs : list evid)
+| OTx (t : tx)
+| OAward (a : bytes) (amt : Z)
+| OBurn (a : bytes) (sev : Z)
+| OEnd
+| OCommit.
+Definition dres_state (d : dres) : state := match d with DOk s | DRejected s | DHandlerErr s => s end.
+(* [None]: the block aborted (panic outside runTx): the process is gone, nothing is committed *)
+Definition step (s : state) (o : op) : option state :=
+  match o with
+  | OBegin h t p vs es => begin_block s h t p vs es
+  | OTx t => Some (dres_state (deliver_tx s t))
+  | OAward a amt => Some (k_award s a amt)
+  | OBurn a sev => Some (k_burn s a sev)
+  | OEnd => match end_block s with Some (s', _) => Some s' | None => None end
+  | OCommit => Some s
+  end.
+Definition run (ops : list op) (s : state) : option state := fold_opt step ops s.
